@@ -304,8 +304,8 @@ def u6(ctx, rid):
             ctx.ok(rid, key, f.where(), 'every ok-return follows a helper that walks the closed-blob stream to exhaustion')
         else:
             ctx.bad(rid, key, f.where(), 'the latest-entry lookup does not iterate the closed blobs to exhaustion')
-    elif any(e in f.reach_from([0], avoid_enter=none_edges) for e in exits):
-        bad = [e for e in exits if e in f.reach_from([0], avoid_enter=none_edges)]
+    elif [e for e in core.ok_exits_cp(f, [0], avoid_enter=none_edges) if e in exits]:
+        bad = [e for e in core.ok_exits_cp(f, [0], avoid_enter=none_edges) if e in exits]
         ctx.bad(rid, key, f.where(bad[0]), 'the latest-entry lookup can return Ok before the closed blobs were consulted: a record with a greater timestamp (or a deletion marker) in a closed blob is ignored',
                 witness=['bb%d %s' % (b, f.where(b)) for b in (f.path([0], bad, avoid_enter=none_edges) or [])])
     else:
